@@ -218,22 +218,67 @@ func Diff(a, b *Tables, ignoreSeq bool) []string {
 	return out
 }
 
-func diffMap[V fmt.Stringer](out *[]string, name string, a, b map[string]V) {
-	for _, k := range SortedKeys(a) {
+type row[V any] interface {
+	fmt.Stringer
+	Eq(V) bool
+}
+
+func diffMap[V row[V]](out *[]string, name string, a, b map[string]V) {
+	var ks []string
+	for k, av := range a {
+		bv, ok := b[k]
+		if !ok || !av.Eq(bv) {
+			ks = append(ks, k)
+		}
+	}
+	sort.Strings(ks)
+	for _, k := range ks {
 		bv, ok := b[k]
 		if !ok {
 			*out = append(*out, fmt.Sprintf("%s[%q]: only left: %s", name, k, a[k]))
 			continue
 		}
-		if as, bs := a[k].String(), bv.String(); as != bs {
-			*out = append(*out, fmt.Sprintf("%s[%q]: %s != %s", name, k, as, bs))
-		}
+		*out = append(*out, fmt.Sprintf("%s[%q]: %s != %s", name, k, a[k], bv))
 	}
-	for _, k := range SortedKeys(b) {
+	ks = ks[:0]
+	for k := range b {
 		if _, ok := a[k]; !ok {
-			*out = append(*out, fmt.Sprintf("%s[%q]: only right: %s", name, k, b[k]))
+			ks = append(ks, k)
 		}
 	}
+	sort.Strings(ks)
+	for _, k := range ks {
+		*out = append(*out, fmt.Sprintf("%s[%q]: only right: %s", name, k, b[k]))
+	}
+}
+
+func (p *Promise) Eq(q *Promise) bool {
+	return p.Id == q.Id && p.SortId == q.SortId && p.State == q.State && EqS(p.ParamHeaders, q.ParamHeaders) && EqS(p.ParamData, q.ParamData) &&
+		EqS(p.ValueHeaders, q.ValueHeaders) && EqS(p.ValueData, q.ValueData) && p.Timeout == q.Timeout && EqS(p.IkCreate, q.IkCreate) && EqS(p.IkComplete, q.IkComplete) &&
+		EqS(p.Tags, q.Tags) && EqI(p.CreatedOn, q.CreatedOn) && EqI(p.CompletedOn, q.CompletedOn)
+}
+
+// CreationEq compares the columns fixed at creation.
+func (p *Promise) CreationEq(q *Promise) bool {
+	return p.Id == q.Id && p.SortId == q.SortId && EqS(p.ParamHeaders, q.ParamHeaders) && EqS(p.ParamData, q.ParamData) && p.Timeout == q.Timeout &&
+		EqS(p.IkCreate, q.IkCreate) && EqS(p.Tags, q.Tags) && EqI(p.CreatedOn, q.CreatedOn)
+}
+
+func (c *Callback) Eq(d *Callback) bool {
+	return c.Id == d.Id && c.PromiseId == d.PromiseId && c.RootPromiseId == d.RootPromiseId && EqS(c.Recv, d.Recv) && EqS(c.Mesg, d.Mesg) && c.Timeout == d.Timeout && c.CreatedOn == d.CreatedOn
+}
+
+func (s *Schedule) Eq(t *Schedule) bool {
+	return s.Id == t.Id && s.SortId == t.SortId && EqS(s.Description, t.Description) && s.Cron == t.Cron && EqS(s.Tags, t.Tags) && s.PromiseId == t.PromiseId && s.PromiseTimeout == t.PromiseTimeout &&
+		EqS(s.PromiseParamHeaders, t.PromiseParamHeaders) && EqS(s.PromiseParamData, t.PromiseParamData) && EqS(s.PromiseTags, t.PromiseTags) && EqI(s.LastRunTime, t.LastRunTime) &&
+		s.NextRunTime == t.NextRunTime && EqS(s.IdempotencyKey, t.IdempotencyKey) && s.CreatedOn == t.CreatedOn
+}
+
+func (l *Lock) Eq(m *Lock) bool { return *l == *m }
+
+func (t *Task) Eq(u *Task) bool {
+	return t.Id == u.Id && t.SortId == u.SortId && EqS(t.ProcessId, u.ProcessId) && t.State == u.State && t.RootPromiseId == u.RootPromiseId && EqS(t.Recv, u.Recv) && EqS(t.Mesg, u.Mesg) &&
+		t.Timeout == u.Timeout && t.Counter == u.Counter && t.Attempt == u.Attempt && t.Ttl == u.Ttl && t.ExpiresAt == u.ExpiresAt && EqI(t.CreatedOn, u.CreatedOn) && EqI(t.CompletedOn, u.CompletedOn)
 }
 
 // Fingerprint is a short abstract description of the state (for coverage).
